@@ -55,7 +55,7 @@ func (v Val) String() string {
 	case 's':
 		return "s" + strconv.Quote(v.S)
 	case 't':
-		if v.S != "" && v.S != "local" {
+		if v.S != "" && v.S != "local" && !strings.HasPrefix(v.S, "tz:") {
 			return fmt.Sprintf("t%dz%dn%s", v.I, v.Off, v.S)
 		}
 		return fmt.Sprintf("t%dz%d", v.I, v.Off)
